@@ -108,6 +108,38 @@ pub fn entity_cfg(w: usize) -> SpaceCfg {
     c
 }
 
+/// nesting chains of depth 1..=max_depth in a few templates (text / attribute / two repeated leaves
+/// at the deepest level; every level a name of its own or one name throughout)
+pub fn deep_chain_docs(max_depth: usize) -> Vec<DocEntry> {
+    let mut out = Vec::new();
+    for depth in 1..=max_depth {
+        for template in 0..4 {
+            let name = |level: usize| if template % 2 == 0 { format!("e{}", level) } else { "a".to_string() };
+            let mut node: Option<Node> = None;
+            for level in (0..depth).rev() {
+                let mut e = Node::new(&name(level));
+                if level + 1 == depth {
+                    if template < 2 {
+                        e.items.push(crate::dom::Item::Text("t".into()));
+                        e.attrs.push(("k".into(), "v".into()));
+                    } else {
+                        let mut leaf = Node::new("z");
+                        leaf.items.push(crate::dom::Item::Text("t".into()));
+                        e.items.push(crate::dom::Item::Elem(leaf.clone()));
+                        e.items.push(crate::dom::Item::Elem(leaf));
+                    }
+                }
+                if let Some(ch) = node.take() {
+                    e.items.push(crate::dom::Item::Elem(ch));
+                }
+                node = Some(e);
+            }
+            out.push(DocEntry::from_root(node.unwrap()));
+        }
+    }
+    out
+}
+
 /// a history evaluated on the real code
 pub struct Eval {
     pub el: Element<String>,
